@@ -110,12 +110,8 @@ Definition expand_hash (F : features) (traits : list trait) (d : dinput) (m : me
   | DUnion fs =>
       let* ta := build_tattr true true false m in
       if negb (ta_unsafe ta) then
-        (* hash/panic.rs: `Hash` (4 bytes) gets "(unsafe)" appended; `Hash()` (6 bytes)
-           runs insert_str(10, ..) on a 6-byte string, which panics *)
-        match m with
-        | MPath _ => Err E_union_without_unsafe
-        | _ => Panic "hash/panic.rs:union_without_unsafe:insert_str(10)"
-        end
+        (* hash/panic.rs union_without_unsafe: the same error for every form of the attribute *)
+        Err E_union_without_unsafe
       else
         let* _ := mapM (fun f => hash_field_attr F traits false false (f_attrs f)) fs in
         Ok [hash_item d (d_generics d) hash_union_body]
